@@ -141,6 +141,31 @@ def permutations_of_group(case, conn, start, count, rnd, max_exhaustive=5, sampl
     return out
 
 
+def permuted_duplications_of_group(case, conn, start, count, rnd, samples=24):
+    """A fragment duplicated once inside a PERMUTED arrival of the group (all such arrivals when the group has at most 3
+    fragments, sampled otherwise): reordering and duplication together."""
+    group = case.script[conn][start:start + count]
+    idx = list(range(count))
+    arrivals = set()
+    if count <= 3:
+        for p in itertools.permutations(idx):
+            for k in range(count):
+                for pos in range(count + 1):
+                    arrivals.add(tuple(list(p[:pos]) + [k] + list(p[pos:])))
+    else:
+        while len(arrivals) < samples:
+            p = idx[:]
+            rnd.shuffle(p)
+            pos = rnd.randrange(count + 1)
+            arrivals.add(tuple(p[:pos] + [rnd.randrange(count)] + p[pos:]))
+    out = []
+    for a in sorted(arrivals):
+        c = case.clone()
+        c.script[conn][start:start + count] = [group[k] for k in a]
+        out.append((c, "dup-perm:" + "".join(map(str, a))))
+    return out
+
+
 def duplications_of_group(case, conn, start, count):
     """Each fragment duplicated once, the copy inserted at every position of the group."""
     group = case.script[conn][start:start + count]
